@@ -162,6 +162,23 @@ class IterReadme(tud.IterableDataset):
         self.i = sd["i"]
 
 
+class IterStartFail(tud.IterableDataset):
+    """Plain iterable dataset whose __iter__ ITSELF raises on chosen calls (a transient failure while opening the shard
+    at the start of an epoch).  start_fail: {worker id: [call numbers, 1-based]}."""
+
+    def __init__(self, sizes, start_fail):
+        self.sizes = list(sizes)
+        self.start_fail = {int(k): set(v) for k, v in dict(start_fail).items()}
+        self.calls = 0
+
+    def __iter__(self):
+        w, _ = _wid()
+        self.calls += 1
+        if self.calls in self.start_fail.get(w, ()):
+            raise ValueError(f"planned failure at the start of epoch {self.calls} in worker {w}")
+        return iter([1000 * w + i for i in range(self.sizes[w])])
+
+
 class IterDsState(tud.IterableDataset):
     """Dataset-level state; generator __iter__ continuing from self.i.  It keeps its end position and a
     `done` flag set when the generator notices exhaustion; a later __iter__ (next epoch on the same
@@ -413,6 +430,8 @@ def _make_dataset(cfg):
     if k == "map_falsy":
         return MapFalsy(cfg["n"], fail)
     sizes = cfg["sizes"]
+    if k == "iter_start_fail":
+        return IterStartFail(sizes, cfg.get("start_fail", {}))
     if k == "iter_plain":
         return IterPlain(sizes, fail)
     if k == "iter_readme":
